@@ -204,12 +204,25 @@ func (p *Prog) contextsOf(b *batchModel) []ssa.CallInstruction {
 	if len(cs) == 0 {
 		return []ssa.CallInstruction{nil}
 	}
-	// only specialise when the keys are not classifiable locally
+	// specialise when a key is not classifiable locally, or when a written / expected value is handed in by the
+	// caller (a commit helper shared by several writers: what it writes is decided per writer)
 	for _, op := range b.Ops {
 		if op.Key != nil && p.keyProvenance(op.Key).Kind == keyUnknown {
 			out := make([]ssa.CallInstruction, len(cs))
 			copy(out, cs)
 			return out
+		}
+	}
+	for _, op := range b.Ops {
+		for _, v := range []ssa.Value{op.Val, op.Old} {
+			if v == nil {
+				continue
+			}
+			if prm, ok := p.resolveDeep(v).(*ssa.Parameter); ok && prm.Parent() == b.Fn {
+				out := make([]ssa.CallInstruction, len(cs))
+				copy(out, cs)
+				return out
+			}
 		}
 	}
 	return []ssa.CallInstruction{nil}
